@@ -79,6 +79,27 @@ def write_file(r, fmt, path, sc=None, pps=None, decimals=None):
     args, _ = writer_args(r)
     if r.get("open_rings"):
         reassign_polygon_rings(sc, pps)
+    if r.get("pre_use"):
+        # the scenario has been in ordinary read-only use before it is written (queries fill whatever is memoised)
+        try:
+            hash(sc), sc == sc
+            for t in (0, 1, 2, 5):
+                sc.occupancies_at_time_step(t)
+                for o in sc.obstacles:
+                    o.occupancy_at_time(t)
+                    if hasattr(o, "state_at_time"):
+                        o.state_at_time(t)
+            for la in sc.lanelet_network.lanelets:
+                la.polygon, la.distance, la.inner_distance
+            pts = [la.center_vertices[0] for la in sc.lanelet_network.lanelets]
+            if pts:
+                sc.lanelet_network.find_lanelet_by_position(pts)
+            for tl in sc.lanelet_network.traffic_lights:
+                tl.get_state_at_time_step(3)
+            for pp in pps.planning_problem_dict.values():
+                pp.goal.is_reached(pp.initial_state)
+        except Exception:   # a query failing is the business of the property that owns the query
+            pass
     ff = FileFormat.XML if fmt == "xml" else FileFormat.PROTOBUF
     w = CommonRoadFileWriter(sc, pps, args["author"], args["affiliation"], args["source"], args["tags"],
                              decimal_precision=decimals if decimals is not None else r.get("decimals", 4),
